@@ -24,6 +24,7 @@ for hs in %(hashseeds)r:
     print("PYTHONHASHSEED=%%s shuffle=%(shuffle)d -> sha256 %%s" %% (hs, outs[hs][:16]))
 p = subprocess.run([sys.executable, "-B", "-m", "props.C08", repo, %(kind)r, str(%(seed)d), "0"], env=dict(os.environ, PYTHONHASHSEED="0", PYTHONPATH=VERIF), capture_output=True, text=True, cwd=VERIF)
 print("reference construction order -> sha256 %%s" %% p.stdout.strip()[:16])
+if any(o.startswith("REPEAT-") for o in list(outs.values()) + [p.stdout.strip()]): REPRODUCED("repeated dumps() of the same %(kind)s object produce different bytes")
 if len(set(outs.values()) | set([p.stdout.strip()])) > 1: REPRODUCED("dumps() bytes of the same %(kind)s content differ across hash seeds / construction orders / repeated dumps")
 NOT_REPRODUCED()
 '''
@@ -34,6 +35,14 @@ def build(mods, kind, seed, shuffle):
     import random
     obj = getattr(gen.G(mods, seed), kind)()
     obj = obj[0] if isinstance(obj, tuple) else obj
+    if kind == "composeinfo":
+        # a caller may have left is_layered False on the release of a layered-product variant; the writer forces it -- every dump alike
+        def unset(cont):
+            for v in cont.variants.values():
+                if v.type == "layered-product":
+                    v.release.is_layered = False
+                unset(v)
+        unset(obj.variants)
     if shuffle:
         r = random.Random(shuffle * 7919 + seed)
 
